@@ -199,12 +199,10 @@ class ExponentialOfMertonModel(ExponentialOfLevyModel):
             parameters.sigma_j,
             parameters.intensity,
         )
-        self._process_drift = (
-            r
-            - d
-            - 0.5 * sigma**2
-            - intensity * (np.exp(mu_j + 0.5 * sigma_j**2) - 1)
+        # convexity and jump compensation; the rate and the dividend yield are read when the drift is asked for
+        self._compensation = 0.5 * sigma**2 + intensity * (
+            np.exp(mu_j + 0.5 * sigma_j**2) - 1
         )
 
     def process_drift(self) -> np.array:
-        return self._process_drift
+        return self.r - self.d - self._compensation
